@@ -87,6 +87,7 @@ type Violation struct {
 	Decs     []int32           `json:"decisions,omitempty"`
 	Obs      map[string]string `json:"obs,omitempty"`
 	Property string            `json:"property,omitempty"`
+	Tag      string            `json:"tag,omitempty"`
 }
 
 type Witness struct {
@@ -142,6 +143,8 @@ type Explorer struct {
 	maxViol    int
 	solverLog  string
 	mapReverse bool
+	openKF     map[string]KnownFinding
+	seed       int
 
 	mu      sync.Mutex
 	cond    *sync.Cond
@@ -317,7 +320,7 @@ func (ex *Explorer) runPath(tt *TT, sol *Solver, fnInfos map[*ssa.Function]*fnIn
 		globals: map[*ssa.Global]*Cell{}, fnInfos: fnInfos,
 		params: ex.params, maxSteps: ex.maxSteps, unwind: ex.unwind,
 		funcsSeen: map[*ssa.Function]int{}, locks: map[*Cell]*lockState{},
-		paramsUsed: map[string]int{}, mapReverse: ex.mapReverse,
+		paramsUsed: map[string]int{}, mapReverse: ex.mapReverse, openKF: ex.openKF,
 	}
 	var vios []Violation
 	inconclusive := 0
@@ -348,7 +351,7 @@ func (ex *Explorer) runPath(tt *TT, sol *Solver, fnInfos map[*ssa.Function]*fnIn
 			return
 		}
 		v := Violation{Harness: ex.harness, Kind: kind, ID: id, Vector: ex.vector(in, vals), Params: in.paramsUsed,
-			Decs: append([]int32(nil), in.ctl.trace...)}
+			Decs: append([]int32(nil), in.ctl.trace...), Tag: in.kfTag}
 		vios = append(vios, v)
 	}
 	status, msg := "done", ""
